@@ -181,4 +181,8 @@ ASSUME \A B \in TabBoxes : Dom_Images27(B, BoxTables[B])
 ASSUME \A r \in DOMAIN Radii : Dom_Radius(Radii[r])
 \* the driver reads the bounded sets from TLC (it never rebuilds them)
 ASSUME PrintT(<<"C14CONST", Queries, Radii, CellRadii, MultiShifts, QueriesPairs>>)
+\* ... and the kinds of caller's arrays (names, which are integer kinds, which may be refused): the
+\* arrays handed to the real CellList for the inputs of this model are cycled through them
+KindFlags(seq) == <<seq, [i \in DOMAIN seq |-> seq[i] \in IntKinds], [i \in DOMAIN seq |-> seq[i] \in RefusableKinds]>>
+ASSUME PrintT(<<"C14KINDS", KindFlags(CoordKindSeq), KindFlags(RadiiKindSeq), KindFlags(SelKindSeq)>>)
 =============================================================================
